@@ -1928,6 +1928,14 @@ func makeInterfaceArshaler(t reflect.Type) *arshaler {
 				} else {
 					v = newAddressableValue(float64Type)
 				}
+				// StringifyNumbers concerns numeric Go types chosen by the caller.
+				// A JSON number decodes into an any value as a number regardless,
+				// exactly as in unmarshalValueAny.
+				if uo.Flags.Get(jsonflags.StringifyNumbers) {
+					flagsOriginal := uo.Flags
+					uo.Flags.Clear(jsonflags.StringifyNumbers)
+					defer func() { uo.Flags = flagsOriginal }()
+				}
 			case '{':
 				v = newAddressableValue(mapStringAnyType)
 			case '[':
